@@ -15,13 +15,13 @@ import (
 )
 
 type FuncResult struct {
-	Key    string
-	Obls   []*Obl
-	Notes  []string
-	Errs   []string
-	Runs   []*SolverRun
-	Script *Script
-	Wall   float64
+	Key      string
+	Obls     []*Obl
+	Notes    []string
+	Errs     []string
+	Runs     []*SolverRun
+	Script   *Script
+	Wall     float64
 	Disagree []string
 }
 
@@ -342,7 +342,13 @@ func runAll(ld *Loaded, sf *SpecFile, opt *Options, only string) []*FuncResult {
 				}
 			}
 			if nCheck > 0 && len(e.errs) == 0 {
-				fr.Runs = solveScript(smtDir, j.key, e.sc, opt.perQuery, time.Duration(opt.perQuery)*time.Millisecond*time.Duration(nCheck+5)+60*time.Second, opt.solvers, e.obls)
+				// first pass with a quarter of the per-query budget: what one solver cannot do quickly another usually
+				// can, and waiting out full timeouts in sequence is what makes big functions slow
+				first := opt.perQuery / 4
+				if first < 2000 {
+					first = 2000
+				}
+				fr.Runs = solveScript(smtDir, j.key, e.sc, first, time.Duration(first)*time.Millisecond*time.Duration(nCheck+5)+60*time.Second, opt.solvers, e.obls)
 				fr.Disagree = combine(e.obls, fr.Runs)
 				// second pass: models for failed obligations
 				var failed []int
@@ -362,28 +368,38 @@ func runAll(ld *Loaded, sf *SpecFile, opt *Options, only string) []*FuncResult {
 	// Obligations left undecided (unknown / timeout, not sat) are tried once more with the machine to themselves and
 	// three times the per-query budget: a loaded machine must not turn into an alarm.
 	retried := 0
-	for _, fr := range results {
-		if fr == nil || fr.Script == nil || len(fr.Errs) > 0 || retried >= 8 {
-			continue
+	for pass := 0; pass < 2; pass++ {
+		budget := opt.perQuery
+		if pass == 1 {
+			budget = opt.perQuery * 3
 		}
-		var again []*Obl
-		undecided := false
-		for _, o := range fr.Obls {
-			if o.Check && !o.IsCover {
-				again = append(again, o)
-				if o.Result != "unsat" && o.Result != "sat" {
-					undecided = true
+		for _, fr := range results {
+			if fr == nil || fr.Script == nil || len(fr.Errs) > 0 || (pass == 1 && retried >= 8) {
+				continue
+			}
+			var again []*Obl
+			undecided := false
+			for _, o := range fr.Obls {
+				if o.Check && !o.IsCover {
+					again = append(again, o)
+					if o.Result != "unsat" && o.Result != "sat" {
+						undecided = true
+					}
 				}
 			}
+			if !undecided {
+				continue
+			}
+			if pass == 1 {
+				retried++
+			}
+			runs := solveScript(smtDir, fmt.Sprintf("%s_retry%d", fr.Key, pass), fr.Script, budget, time.Duration(budget)*time.Millisecond*time.Duration(len(again)+5)+60*time.Second, opt.solvers, again)
+			fr.Runs = append(fr.Runs, runs...)
+			fr.Disagree = combine(fr.Obls, fr.Runs)
+			if pass == 1 {
+				fr.Notes = append(fr.Notes, "undecided obligations were retried alone with a threefold time budget")
+			}
 		}
-		if !undecided {
-			continue
-		}
-		retried++
-		runs := solveScript(smtDir, fr.Key+"_retry", fr.Script, opt.perQuery*3, time.Duration(opt.perQuery*3)*time.Millisecond*time.Duration(len(again)+5)+60*time.Second, opt.solvers, again)
-		fr.Runs = append(fr.Runs, runs...)
-		fr.Disagree = combine(fr.Obls, fr.Runs)
-		fr.Notes = append(fr.Notes, "undecided obligations were retried alone with a threefold time budget")
 	}
 	if !opt.keepSMT {
 		os.RemoveAll(smtDir)
@@ -414,7 +430,6 @@ func getModels(ld *Loaded, sf *SpecFile, fn *ssa.Function, fs *FuncSpec, lm *Lem
 		}
 	}
 }
-
 
 func fnUsesLock(ld *Loaded, fnK string, lockKey string) bool {
 	fn := ld.funcs[fnK]
